@@ -742,6 +742,90 @@ def mergeDateAndTime (dateSlot timeSlot : Slot) (pmTime amTime : Bool) (shiftOnl
     | _, _ => .error "ValueError"
   | _, _ => .ok {}
 
+/-! ## `BaseDateTimeParser.parse_time_of_today` ("tonight at 7", "this morning at 7:30"), end of day, now -/
+
+/-- `EnglishDateTimeParserConfiguration.get_swift_day` -/
+def enGetSwiftDay (u : Uni) (s : Str) : Int :=
+  let t := strip u.isSpace s
+  if startsWith t [110, 101, 120, 116] then 1 else if startsWith t [108, 97, 115, 116] then -1 else 0
+
+/-- `EnglishDateTimeParserConfiguration.get_hour` -/
+def enGetHour (u : Uni) (s : Str) (hour : Int) : Int :=
+  let t := strip u.isSpace s
+  let morning := endsWith t [109, 111, 114, 110, 105, 110, 103]
+  if morning && hour ≥ 12 then hour - 12
+  else if !morning && hour < 12 && !(endsWith t [110, 105, 103, 104, 116] && hour < 6) then hour + 12
+  else hour
+
+/-- the culture hooks `parse_time_of_today` calls -/
+structure TodCfg where
+  numbers : List (Str × Nat)
+  getSwiftDay : Str → Int
+  getHour : Str → Int → Int
+
+/-- where the time comes from: the simple "time of today" regexes matched the whole text (`hour` / `hournum` groups;
+`hour` may be absent = `none`), or the time extractor + time parser were used (the parser's slot) -/
+inductive TodTime where
+  | whole (hour : Option Str) (hourNum : Str)
+  | parsed (slot : Slot)
+  /-- the time extractor found nothing even after the token prefix: `return result` -/
+  | nothing
+
+/-- `parse_time_of_today(source, reference)`; `matchStr` = lower-cased first match of `specific_time_of_day_regex`
+(`none` = no match). Errors: `"Other"` = TypeError on a `None` hour / OverflowError of the date. -/
+def parseTimeOfToday (u : Uni) (cfg : TodCfg) (t : TodTime) (matchStr : Option Str) (ref : DT) : Except String Res := do
+  let r : Option (Int × Int × Int × Str) ← (
+    match t with
+    | .whole hour hourNum =>
+      match hour with
+      | some hs =>
+        if !hs.isEmpty then do
+          let h ← intOf u hs
+          pure (some (h, 0, 0, 84 :: fmtD 2 h))
+        else
+          match lookup cfg.numbers hourNum with
+          | some v => pure (some ((v : Int), 0, 0, 84 :: fmtD 2 (v : Int)))
+          | none => throw "Other"
+      | none =>
+        match lookup cfg.numbers hourNum with
+        | some v => pure (some ((v : Int), 0, 0, 84 :: fmtD 2 (v : Int)))
+        | none => throw "Other"
+    | .parsed slot =>
+      match slot.res with
+      | none => pure none
+      | some tr => pure (some ((tr.future.hh : Int), (tr.future.mi : Int), (tr.future.ss : Int), slot.timex))
+    | .nothing => pure none)
+  match r with
+  | none => return {}
+  | some (hour, minute, second, timeStr) =>
+    match matchStr with
+    | none => return {}
+    | some ms =>
+      let swift := cfg.getSwiftDay ms
+      match ref.date.addDays swift with
+      | none => throw "Other"
+      | some date =>
+        let hour := cfg.getHour ms hour
+        let timeStr := if endsWith timeStr sAmPm then sliceI timeStr 0 (-4) else timeStr
+        let timeStr := 84 :: fmtD 2 hour ++ timeStr.drop 3
+        match mkDateTime date.y date.m date.d hour minute second with
+        | none => throw "ValueError"
+        | some v =>
+          return { success := true, timex := formatDate ⟨date.y, date.m, date.d, 0, 0, 0⟩ ++ timeStr, future := v, past := v }
+
+/-- `resolve_end_of_day(timex_prefix, future_date, past_date)` -/
+def resolveEndOfDay (timexPrefix : Str) (future past : DT) : Res :=
+  { success := true, timex := timexPrefix ++ [84, 50, 51, 58, 53, 57, 58, 53, 57],
+    future := ⟨future.y, future.m, future.d, 23, 59, 59⟩, past := ⟨past.y, past.m, past.d, 23, 59, 59⟩ }
+
+/-- `parse_unspecific_time_of_date` when the `eod` regex matches -/
+def endOfToday (ref : DT) : Res := resolveEndOfDay (formatDate ref) ref ref
+
+/-- today-relative datetime entity: `parse_time_of_today` → `BaseDateTimeParser.parse` → `_date_time_resolution` -/
+def resolveTimeOfToday (u : Uni) (cfg : TodCfg) (t : TodTime) (matchStr : Option Str) (ref : DT) :
+    Except String (Option (List Value)) := do
+  dateTimeResolution u (toSlot .datetime (← parseTimeOfToday u cfg t matchStr ref))
+
 /-! ## `ChineseTimeParser` (digit and 汉字 clock times; `handle_less` — "差五分十点" — is not modelled) -/
 
 structure ZhCfg where
